@@ -215,6 +215,10 @@ type Raft struct {
 	// The timestamp representing the time of the last contact by the leader.
 	lastContact time.Time
 
+	// Indicates that this node has been stopped: the log is closed and any
+	// persisted state must be restored before the node runs again.
+	stopped bool
+
 	// The number of rounds of AppendEntries RPCs this node has started. Used to ensure that
 	// a read-only operation is only confirmed by a round that started after it was submitted.
 	heartbeatRound uint64
@@ -450,10 +454,13 @@ func (r *Raft) start(restore bool) error {
 		return nil
 	}
 
-	if restore {
+	// A node that has been stopped must recover its state (stopping it closed the
+	// log) even if it is started with Start instead of Restart.
+	if restore || r.stopped {
 		if err := r.restore(); err != nil {
 			return fmt.Errorf("could not restore state: %w", err)
 		}
+		r.stopped = false
 	}
 
 	if r.configuration == nil {
@@ -528,6 +535,10 @@ func (r *Raft) Stop() {
 
 	// Close or discard of any snapshot files.
 	r.resetSnapshotFiles()
+
+	r.mu.Lock()
+	r.stopped = true
+	r.mu.Unlock()
 
 	r.logger.Info("node stopped")
 }
